@@ -493,7 +493,48 @@ def _native_uf():
         except ValueError:
             return False
     ascii_only = lambda s: all(ord(c) < 128 for c in s)      # noqa: E731 - str/bytes methods agree on ASCII
+
+    def as_bytes(s):
+        return s.encode("latin-1") if all(ord(c) < 256 for c in s) else None
+
+    def dec_ok(b, codec):
+        raw = as_bytes(b)
+        if raw is None:
+            return None
+        try:
+            raw.decode(codec)
+            return True
+        except UnicodeDecodeError:
+            return False
+        except LookupError:
+            return None
+
+    def dec(b, codec, errors):
+        raw = as_bytes(b)
+        if raw is None:
+            return None
+        try:
+            return raw.decode(codec, errors)
+        except (UnicodeDecodeError, LookupError):
+            return None
+
+    def enc_ok(t, codec):
+        try:
+            t.encode(codec)
+            return True
+        except UnicodeEncodeError:
+            return False
+        except (LookupError, UnicodeError):
+            return None
+
+    def enc(t, spec):
+        codec, _, errors = spec.partition(":")
+        try:
+            return t.encode(codec, errors or "strict").decode("latin-1")
+        except (UnicodeError, LookupError):
+            return None
     return {
+        "py_decode_ok": dec_ok, "py_decode": dec, "py_encode_ok": enc_ok, "py_encode": enc,
         "py_int_ok": (lambda s, b: int_ok(s, b) if 2 <= b <= 36 else None),
         "py_int_val": (lambda s, b: int(s, b) if 2 <= b <= 36 and int_ok(s, b) else None),
         "py_float_ok": lambda s: float_ok(s),
